@@ -28,9 +28,10 @@ func modelKind(s string) string {
 
 // A rendered document remembers where each token starts.
 type rendered struct {
-	text    string
-	tokLine []int // 1-based line of the keyword (or of ")") of each token
-	tokOff  []int // byte offset of the keyword
+	text     string
+	tokLine  []int // 1-based line of the keyword (or of ")") of each token
+	tokOff   []int // byte offset of the keyword
+	bodyLine []int // 1-based line of the first line of the body (0: no body)
 }
 
 // layout options for rendering: the choices the language defines as insignificant
@@ -42,6 +43,7 @@ type layout struct {
 	rng      *rng   // when set: blank lines, '#' and '###' comments before directives, trailing comments
 	quote    bool   // quote every bare parameter
 	mlAnn    bool   // "/* a */" instead of "// a"
+	wideAnn  bool   // every blank inside an annotation written as a run of blanks / tabs (/* */: also a line break)
 }
 
 var canon = layout{nl: "\n"}
@@ -194,10 +196,14 @@ func renderTokens(toks []Tok, fill bool, lo layout) rendered {
 			h += " " + strings.Join(p, " ")
 		}
 		if t.A != "" {
+			a := rawText(t.A)
+			if lo.wideAnn {
+				a = widenBlanks(a, lo.mlAnn, i)
+			}
 			if lo.mlAnn {
-				h += " /* " + t.A + " */"
+				h += " /* " + a + " */"
 			} else {
-				h += " // " + t.A
+				h += " // " + a
 			}
 		}
 		h += lo.trailing
@@ -214,6 +220,18 @@ func renderTokens(toks []Tok, fill bool, lo layout) rendered {
 			if lo.rng != nil && t.K != "Description" && lo.rng.intn(3) == 0 {
 				b += []string{" ", "\t", "  "}[lo.rng.intn(3)]
 			}
+			if lo.rng != nil && t.K == "Description" && lo.rng.intn(3) == 0 {
+				// empty lines between the Description keyword and its text are skipped by the scanner (really empty ones:
+				// a line of blanks is part of the text)
+				for x, m := 0, 1+lo.rng.intn(2); x < m; x++ {
+					sb.WriteString(lo.nl)
+					line++
+				}
+			}
+			for len(r.bodyLine) < len(r.tokLine)-1 {
+				r.bodyLine = append(r.bodyLine, 0)
+			}
+			r.bodyLine = append(r.bodyLine, line)
 			wr(b)
 		}
 		afterDescription = t.K == "Description"
@@ -251,6 +269,43 @@ func bodyText(id string) string {
 		return t
 	}
 	return id
+}
+
+// rawText replaces "\xNN" by the raw byte (TLA+ strings hold ASCII only).
+func rawText(t string) string {
+	for i := strings.Index(t, `\x`); i >= 0 && i+4 <= len(t); i = strings.Index(t, `\x`) {
+		var b byte
+		if _, err := fmt.Sscanf(t[i+2:i+4], "%02X", &b); err != nil {
+			break
+		}
+		t = t[:i] + string([]byte{b}) + t[i+4:]
+	}
+	return t
+}
+
+// widenBlanks writes every blank of an annotation as a run of blanks and tabs (in a multi-line annotation also as a line
+// break): the annotation of the catalog is the text with every run of white space collapsed to one blank.
+func widenBlanks(a string, multiline bool, salt int) string {
+	var sb strings.Builder
+	n := salt
+	for i := 0; i < len(a); i++ {
+		if a[i] != ' ' {
+			sb.WriteByte(a[i])
+			continue
+		}
+		n++
+		switch {
+		case multiline && n%4 == 0:
+			sb.WriteString(" \n   ")
+		case n%3 == 0:
+			sb.WriteString("\t")
+		case n%3 == 1:
+			sb.WriteString("   ")
+		default:
+			sb.WriteString(" \t ")
+		}
+	}
+	return sb.String()
 }
 
 // pathText is the text of a path id; "\xNN" in the pool's text stands for the raw byte (TLA+ strings cannot hold it).
